@@ -5,6 +5,7 @@
 package rtp
 
 import (
+	"github.com/cnotch/ipchub/utils/simhook"
 	"bufio"
 	"encoding/binary"
 	"errors"
@@ -125,6 +126,7 @@ func (p *Packet) Write(w io.Writer, channelConfig []int) error {
 		return err
 	}
 
+	simhook.Y("rtp.packet.write.betweenPrefixAndPayload")
 	// 写包数据部分
 	if _, err := w.Write(p.Data); err != nil {
 		return err
